@@ -82,6 +82,16 @@ namespace C13
     lvl.matrix_sys.apply(vec_tmp, vec_int);                 // distributed operator application (includes the synchronisation)
     const double aint_norm = vec_tmp.norm2();
     const double energy = vec_int.dot(vec_tmp);             // u^T A u
+    // the other operator overloads against the plain product (the Laplace matrix is symmetric: A^T u = A u):
+    // r <- A^T u;  r <- y + alpha A^T u and r <- y + alpha A u with y a different object than r and non-zero on the interfaces
+    double at_diff = 0.0, at4_diff = 0.0, a4_diff = 0.0; const double aint_max = vec_tmp.max_abs_element();
+    {
+      GlobalSystemVector vt = lvl.matrix_sys.create_vector_r(), vr = lvl.matrix_sys.create_vector_r(), v4 = lvl.matrix_sys.create_vector_r();
+      vt.format(-3.0); lvl.matrix_sys.apply_transposed(vt, vec_int); vt.axpy(vec_tmp, -1.0); at_diff = vt.max_abs_element();
+      vr.copy(vec_int); vr.axpy(vec_tmp, -0.5);                                   // reference: u - A u / 2
+      v4.format(-3.0); lvl.matrix_sys.apply_transposed(v4, vec_int, vec_int, -0.5); v4.axpy(vr, -1.0); at4_diff = v4.max_abs_element();
+      v4.format(-3.0); lvl.matrix_sys.apply(v4, vec_int, vec_int, -0.5); v4.axpy(vr, -1.0); a4_diff = v4.max_abs_element();
+    }
     const double maxabs = vec_int.max_abs_element();
     // a type-0 vector synchronised: local rhs contributions of each patch were summed by sync_0 above; do it once more by hand
     GlobalSystemVector vec_t0 = lvl.matrix_sys.create_vector_r(); vec_t0.format();
@@ -150,10 +160,10 @@ namespace C13
     if(comm.rank() == 0)
     {
       std::printf("C13JSON {\"ranks\":%d,\"element\":\"%s\",\"num_dofs\":%llu,\"levels_physical\":%llu,\"levels_virtual\":%llu,\"status\":\"%s\",\"iters\":%d,"
-        "\"rhs_norm_unfiltered\":%.17g,\"int_norm\":%.17g,\"dot_int_rhs\":%.17g,\"aint_norm\":%.17g,\"energy\":%.17g,\"maxabs\":%.17g,\"t0_norm\":%.17g,\"rhs_norm\":%.17g,"
+        "\"rhs_norm_unfiltered\":%.17g,\"int_norm\":%.17g,\"dot_int_rhs\":%.17g,\"aint_norm\":%.17g,\"energy\":%.17g,\"maxabs\":%.17g,\"aint_max\":%.17g,\"at_diff\":%.17g,\"at4_diff\":%.17g,\"a4_diff\":%.17g,\"t0_norm\":%.17g,\"rhs_norm\":%.17g,"
         "\"join_norm\":%.17g,\"join_norm2\":%.17g,\"int_norm_after_join\":%.17g,\"aint_norm_after_join\":%.17g,\"split_err\":%.17g,\"p0_dofs\":%llu,\"p0_dot\":%.17g,\"p0_norm\":%.17g,\"p0_norm_async\":%.17g,\"p0_max\":%.17g,\"def_init\":%.17g,\"def_final\":%.17g,\"true_res\":%.17g,\"sol_norm\":%.17g,\"h0_err\":%.17g,\"h1_err\":%.17g}\n",
         comm.size(), ename, (unsigned long long)num_dofs, (unsigned long long)domain.size_physical(), (unsigned long long)domain.size_virtual(), stringify(result).c_str(), iters,
-        rhs_norm_unfiltered, int_norm, dot_int_rhs, aint_norm, energy, maxabs, t0_norm, rhs_norm, join_norm, join_norm2, int_norm_after_join, aint_norm_after_join, split_err, (unsigned long long)p0_dofs, p0_dot, p0_norm, p0_norm_async, p0_max, def_init, def_final, true_res, sol_norm, std::sqrt((double)errors.norm_h0_sqr), std::sqrt((double)errors.norm_h1_sqr));
+        rhs_norm_unfiltered, int_norm, dot_int_rhs, aint_norm, energy, maxabs, aint_max, at_diff, at4_diff, a4_diff, t0_norm, rhs_norm, join_norm, join_norm2, int_norm_after_join, aint_norm_after_join, split_err, (unsigned long long)p0_dofs, p0_dot, p0_norm, p0_norm_async, p0_max, def_init, def_final, true_res, sol_norm, std::sqrt((double)errors.norm_h0_sqr), std::sqrt((double)errors.norm_h1_sqr));
       std::printf("C13LEVELS desired [%s] chosen [%s]\n", domain.format_desired_levels().c_str(), domain.format_chosen_levels().c_str());
       std::printf("C13INFO %s\n", domain.get_chosen_parti_info().c_str());
       std::fflush(stdout);
